@@ -20,7 +20,9 @@
 //!   FormatDoc{via,on,edits}         via "lsp"|"web"; on "source"|"formatted" (= the result of the
 //!                                   previous FormatDoc on the source through the same path)
 //!   FormatRange{sl,sc,el,ec,edits}  FormatOnType{l,c,ch,edits}
-//!                                   edit = {ls,le,cut,nf,nl,cf,cl,nt,cm,ld} (see Format.tla part 1)
+//!                                   edit = {ls,le,cut,nf,nl,cf,cl,nt,cm,ld,ldx} (see Format.tla part 1;
+//!                                   ld / ldx: line digests of the new text without / with the
+//!                                   empty piece after a final line terminator)
 //!   ApplyEdits{doc,overlap}         the editor applied the edits of the preceding request to the
 //!                                   text that request was made on
 //!   Died{during,via,status} / Failed{during,via,code,msg} / Hang{during,via,secs} / Panic{during,via,msg}
@@ -262,7 +264,7 @@ fn apply_edits(t: &str, toks: &[Tk], edits: &[Edit]) -> (String, Vec<J>, bool) {
             "cut": cut, "nf": nf, "nl": nf - 1 + nin, "cf": cf, "cl": cf - 1 + cin,
             "nt": nt.iter().filter(|k| k.code).map(|k| k.proj.as_str()).collect::<Vec<_>>(),
             "cm": nt.iter().filter(|k| k.comment).map(|k| k.proj.as_str()).collect::<Vec<_>>(),
-            "ld": line_digests(&e.new, true),
+            "ld": line_digests(&e.new, true), "ldx": line_digests(&e.new, false),
         }));
     }
     out.push_str(&t[at..]);
